@@ -1,6 +1,7 @@
 import JunoModel.Common.Proto
 import JunoModel.C02.ModelAccept
 import JunoModel.C02.ModelStore
+import JunoModel.C02.ModelBody
 /-!
 Line-protocol driver for the C02 model (`lake build c02drv`).
 
@@ -285,8 +286,55 @@ def casmOps : CasmMeta → List String → Option (CasmMeta × List String)
     | some (.ok m') => (casmOps m' rest).map (fun p => (p.1, "ok" :: p.2))
     | some (.error e) => (casmOps m rest).map (fun p => (p.1, migrateErrStr e :: p.2))
 
+/-! ### round 5: header counts vs body, Sierra class hash -/
+
+def pSierraEP : P SierraEP := do let i ← pU64; let s ← pFelt; pure ⟨i, s⟩
+
+/-- a Sierra class with its two precomputed hashes (`program` / `abi` are not read by `Hash()`) -/
+def pSierraHashed : P SierraCls := do
+  let v ← pBytes; let e ← pList pSierraEP; let l ← pList pSierraEP; let c ← pList pSierraEP
+  let ah ← pFelt; let ph ← pFelt
+  pure ⟨v, e, l, c, ah, ph, [], []⟩
+
+/-- a Sierra class as the feeder delivers it: program and ABI, no hashes -/
+def pSierraRaw : P SierraCls := do
+  let v ← pBytes; let e ← pList pSierraEP; let l ← pList pSierraEP; let c ← pList pSierraEP
+  let prog ← pList pFelt; let abi ← pBytes
+  pure ⟨v, e, l, c, .felt 0, .felt 0, prog, abi⟩
+
+/-- `core.SegmentLengths`: number of children, the children, the length -/
+partial def pSeg : P Seg := do
+  let n ← pNat
+  if n > 64 then failure
+  let cs ← pRep pSeg n
+  let l ← pU64
+  pure (Seg.mk cs l)
+
 def step (s : DState) (line : String) : DState × String :=
   match words line with
+  | "casmseg" :: rest =>
+    -- does CasmClass.Hash panic? `~` = nil Compiled; else cap(bytecode) and BytecodeSegmentLengths.Children
+    match parseAll (do let g ← pBool; let c ← pOpt (do let cap ← pNat; let ss ← pList pSeg; pure (⟨cap, ss⟩ : CompiledShape)); pure (g, c)) rest with
+    | some (g, c) =>
+      (s, match casmV2HashOutcomeWith g c with | .value => "value" | .error => "error" | .panic => "panic")
+    | none => (s, "bad-op")
+  | "counts" :: rest =>
+    -- body lengths, the counts sn2core.AdaptBlock derives from the body, and "count = length" for the header sent
+    match parseAll pBlock rest with
+    | some b =>
+      let bl := bodyLengths b
+      (s, natToHex bl.txs ++ " " ++ natToHex bl.receipts ++ " " ++ natToHex bl.events ++ " " ++
+          natToHex (adaptedTxCount b.txs).toNat ++ " " ++ natToHex (adaptedEventCount b.receipts).toNat ++ " " ++
+          (if countsMatch b then "1" else "0") ++ " " ++ (if adaptCounts b == b then "1" else "0"))
+    | none => (s, "bad-op")
+  | "clshash" :: rest =>
+    match parseAll (do let l ← pBool; let c ← pSierraHashed; pure (l, c)) rest with
+    | some (l, c) => (s, optTermStr (sierraClassHashWith l c))
+    | none => (s, "bad-op")
+  | "clsadapt" :: rest =>
+    match parseAll (do let l ← pBool; let c ← pSierraRaw; pure (l, c)) rest with
+    | some (l, c) => (s, optTermStr (sierraClassHashWith l (adaptSierra c)))
+    | none => (s, "bad-op")
   | "tx" :: rest =>
     match parseAll (do let n ← pNet; let t ← pTx; pure (n, t)) rest with
     | some (n, t) => (s, optTermStr (txHash n.chainId t))
